@@ -122,5 +122,89 @@ def check(idx, run):
         "`call sub(a(1) + 1.0, a, n)` with `sub: y(1) = 0.0; y(2) = x` as "
         "`a(1) = 0.0; a(2) = a(1) + 1.0` (the expression is re-evaluated "
         "after a(1) changed)", loc(mod, val))
+    # R3: every index expression of the callee goes through the formal ->
+    # actual substitution before it becomes part of the caller
+    cidx = cls.methods.get("_create_inlined_idx")
+    if cidx is None:
+        raise AnalysisError("InlineTrans._create_inlined_idx not found")
+    param = "local_idx"
+    parents = {}
+    for node in ast.walk(cidx):
+        for child in ast.iter_child_nodes(node):
+            parents[child] = node
+    nuse = 0
+    for node in ast.walk(cidx):
+        is_part = isinstance(node, ast.Attribute) and isinstance(
+            node.value, ast.Name) and node.value.id == param and \
+            node.attr in ("start", "stop", "step")
+        is_whole = isinstance(node, ast.Name) and node.id == param and \
+            isinstance(node.ctx, ast.Load) and not isinstance(
+                parents.get(node), ast.Attribute) and not (
+                isinstance(parents.get(node), ast.Call) and
+                ast.unparse(parents[node].func) == "isinstance")
+        if not (is_part or is_whole):
+            continue
+        nuse += 1
+        cur, ok = node, False
+        while cur in parents:
+            cur = parents[cur]
+            if isinstance(cur, ast.Call) and ast.unparse(cur.func) in (
+                    "self._replace_formal_arg", "self._create_inlined_idx"):
+                ok = True
+                break
+        run.check(
+            "C07.R3", ok, "InlineTrans._create_inlined_idx",
+            f"{ast.unparse(node)} is substituted before it is used",
+            f"the callee's index expression '{ast.unparse(node)}' is copied "
+            f"into the caller without replacing the formal arguments it "
+            f"mentions: `x(::stride)` keeps `stride`, which in the caller is "
+            f"a different (or no) variable", loc(mod, node))
+    run.floor("uses of the callee's index expression", nuse, 4)
+    # R4: the only routines with persistent locals that may be inlined are
+    # those whose SAVE'd entities are constants
+    for st in ast.walk(val):
+        if isinstance(st, ast.If) and "StaticInterface" in \
+                ast.unparse(st.test) and any(isinstance(b, ast.Raise)
+                                             for b in st.body):
+            test = st.test
+            atoms = [" ".join(ast.unparse(v).split()) for v in (
+                test.values if isinstance(test, ast.BoolOp) and
+                isinstance(test.op, ast.And) else [test])]
+            extra = [a for a in atoms if "StaticInterface" not in a and
+                     a != "not sym.is_constant"]
+            run.check(
+                "C07.R4", not extra, "InlineTrans.validate",
+                "persistent (SAVE) locals are refused unless constant",
+                f"a routine with a static local is only refused when also "
+                f"{extra}: `integer :: ncalls = 0` (implicitly SAVE'd) "
+                f"would be inlined and every call site gets its own counter",
+                loc(mod, st))
+    # R5: a local of the callee must not take the name of something the
+    # call site sees from an outer scope (module variable): merge only
+    # resolves clashes within the call site's own table
+    guards = []
+    for f in ast.walk(app):
+        if isinstance(f, ast.For) and "routine_table.symbols" in \
+                ast.unparse(f.iter):
+            ftxt = " ".join(ast.unparse(f).split())
+            if "rename_symbol(" in ftxt and "table.lookup(" in ftxt:
+                guards.append(f)
+    reach = set(cfg.reachable())
+    live = [n for n in cfg.stmt_nodes() if "rename_symbol(" in
+            ast.unparse(n.ast) and n.kind == "stmt" and n.id in reach]
+    if not live:
+        guards = []
+    merge_line = min((n.lineno for n in merges), default=0)
+    run.check(
+        "C07.R5", bool(guards) and all(g.lineno < merge_line
+                                       for g in guards),
+        "InlineTrans.apply",
+        "callee locals that would hide an outer-scope variable of the call "
+        "site are renamed before the merge",
+        "the callee's symbols are merged into the call site's table without "
+        "looking at the enclosing scopes: a local `total` of the inlined "
+        "routine hides the module variable `total` that the caller's own "
+        "statements use (`total = total + a` then updates the new local)",
+        loc(mod, app))
     run.assumptions = ["beyond R2 the run-time behaviour of the inlined "
                        "code is not decided"]
